@@ -64,32 +64,57 @@ Proof.
   intros w9 H. rewrite ro_end_state_eq in H. apply ro_raw_close_flt in H. apply ry_commit_flt in H. destruct H as (H & _).
   rewrite ro_uninit_io in H. exact H.
 Qed.
+Lemma ro_finish_fault : forall w d e, rp_fault (rp_finish w d e) = rp_flt (rp_io_ (fst (rp_scan_fsr_sample_id (rp_c w)))).
+Proof. intros w d e. unfold rp_finish. destruct (rp_scan_fsr_sample_id (rp_c w)). reflexivity. Qed.
 Lemma ro_finish_flt : forall w d e, rp_fault (rp_finish w d e) = 0 -> rp_flt (rp_w_io w) = 0.
+Proof. intros w d e H. rewrite ro_finish_fault in H. exact (proj2 (proj2 (ro_scan_sid_rd (rp_c w))) H). Qed.
+Lemma ro_repair_end_cases : forall w9, exists s11 e,
+  (rp_flt s11 = 0 -> rp_flt (rp_w_io (rp_end_state w9)) = 0) /\
+  (rp_repair_end w9 = rp_finish (rp_w_set_io (rp_end_state w9) s11) true e \/
+   exists rc, rp_repair_end w9 = rp_res_end rc (rp_w_set_io (rp_end_state w9) s11) true e).
 Proof.
-  intros w d e H. unfold rp_finish in H. pose proof (ro_scan_sid_rd (rp_c w)) as (_ & _ & R).
-  destruct (rp_scan_fsr_sample_id (rp_c w)) as [c1 rc]. cbn [fst] in R. apply R.
-  cbn [rp_fault rp_res_end rp_w_io rp_c rp_w_set_c] in H. exact H.
+  intros w9. unfold rp_repair_end.
+  pose proof (ro_raw_open_flt (rp_w_io (rp_end_state w9)) false) as O.
+  destruct (rp_raw_open (rp_w_io (rp_end_state w9)) false) as [s11 rc11]. cbn [fst] in O.
+  exists s11. eexists. split; [exact O |].
+  destruct (negb (rc11 =? 0)); [right; exists rc11; reflexivity | left; reflexivity].
 Qed.
 Lemma ro_repair_end_flt : forall w9, rp_fault (rp_repair_end w9) = 0 -> rp_flt (rp_w_io w9) = 0.
 Proof.
-  intros w9 H. apply ro_end_state_flt. unfold rp_repair_end in H. cbv zeta in H.
-  apply (ro_raw_open_flt (rp_w_io (rp_end_state w9)) false).
-  destruct (rp_raw_open (rp_w_io (rp_end_state w9)) false) as [s11 rc11]. cbn [fst].
-  destruct (negb (rc11 =? 0)); [exact H | exact (ro_finish_flt _ _ _ H)].
+  intros w9 H. apply ro_end_state_flt. destruct (ro_repair_end_cases w9) as (s11 & e & O & [D | (rc & D)]); rewrite D in H; apply O.
+  - exact (ro_finish_flt _ _ _ H).
+  - exact H.
+Qed.
+
+(* the three ways the tail ends *)
+Lemma ro_tail_cases : forall w6a, exists w7 c8 rc8 w9 rc9,
+  w7 = rp_repair_all_pointers w6a /\ rp_scan_fsr_sample_id (rp_c w7) = (c8, rc8) /\
+  ((rc8 <> 0 /\ ro_tail w6a = rp_exit summ1 summN (rp_w_set_c w7 c8) rc8) \/
+   (rp_repair_fsr_all summ1 summN rp_signal_ids (rp_w_set_c w7 c8) = (w9, rc9) /\
+    ((rc9 <> 0 /\ ro_tail w6a = rp_exit summ1 summN w9 rc9) \/ (rc9 = 0 /\ ro_tail w6a = rp_repair_end w9)))).
+Proof.
+  intros w6a. unfold ro_tail. cbv zeta. exists (rp_repair_all_pointers w6a).
+  destruct (rp_scan_fsr_sample_id (rp_c (rp_repair_all_pointers w6a))) as [c8 rc8].
+  destruct (rp_repair_fsr_all summ1 summN rp_signal_ids (rp_w_set_c (rp_repair_all_pointers w6a) c8)) as [w9 rc9] eqn:E9.
+  exists c8, rc8, w9, rc9. split; [reflexivity |]. split; [reflexivity |].
+  destruct (rc8 =? 0) eqn:E8; cbn [negb].
+  - right. rewrite E9. split; [reflexivity |]. destruct (rc9 =? 0) eqn:E; cbn [negb].
+    + right. split; [now apply N.eqb_eq in E | reflexivity].
+    + left. split; [now apply N.eqb_neq in E | reflexivity].
+  - left. split; [now apply N.eqb_neq in E8 | reflexivity].
 Qed.
 
 Lemma ro_tail_flt : forall w6a, rp_fault (ro_tail w6a) = 0 -> rp_flt (rp_w_io w6a) = 0.
 Proof.
-  intros w6a H. unfold ro_tail in H. cbv zeta in H.
-  apply (proj1 (ry_repair_all_pointers f pos w6a)).
-  set (w7 := rp_repair_all_pointers w6a) in *.
-  pose proof (ro_scan_sid_rd (rp_c w7)) as (_ & _ & R8).
-  destruct (rp_scan_fsr_sample_id (rp_c w7)) as [c8 rc8]. cbn [fst] in R8. apply R8.
-  change (rp_flt (rp_w_io (rp_w_set_c w7 c8)) = 0).
-  destruct (negb (rc8 =? 0)); [exact (ro_exit_flt summ1 summN _ _ H) |].
-  pose proof (rz_repair_fsr_all f pos summ1 summN rp_signal_ids (rp_w_set_c w7 c8)) as R9. cbv zeta in R9. destruct R9 as (R9 & _).
-  destruct (rp_repair_fsr_all summ1 summN rp_signal_ids (rp_w_set_c w7 c8)) as [w9 rc9]. cbn [fst] in R9. apply R9.
-  destruct (negb (rc9 =? 0)); [exact (ro_exit_flt summ1 summN _ _ H) | exact (ro_repair_end_flt _ H)].
+  intros w6a H. destruct (ro_tail_cases w6a) as (w7 & c8 & rc8 & w9 & rc9 & E7 & E8 & D).
+  apply (proj1 (ry_repair_all_pointers f pos w6a)). rewrite <- E7.
+  pose proof (ro_scan_sid_rd (rp_c w7)) as R8. rewrite E8 in R8. cbn [fst] in R8. apply (proj2 (proj2 R8)).
+  assert (X : rp_flt (rp_w_io (rp_w_set_c w7 c8)) = 0); [| exact X].
+  destruct D as [(_ & D) | (E9 & D)].
+  { rewrite D in H. exact (ro_exit_flt summ1 summN _ _ H). }
+  pose proof (rz_repair_fsr_all f pos summ1 summN rp_signal_ids (rp_w_set_c w7 c8)) as R9. cbv zeta in R9. rewrite E9 in R9. cbn [fst] in R9.
+  apply (proj1 R9).
+  destruct D as [(_ & D) | (_ & D)]; rewrite D in H; [exact (ro_exit_flt summ1 summN _ _ H) | exact (ro_repair_end_flt _ H)].
 Qed.
 
 Lemma ro_tail_classified : forall w6a st,
@@ -99,38 +124,39 @@ Lemma ro_tail_classified : forall w6a st,
 Proof.
   intros w6a st H6 Hflt Hr1 Hr2.
   destruct (H6 (ro_tail_flt _ Hflt)) as (A6 & S6). clear H6.
-  unfold ro_tail in *. cbv zeta in *.
-  pose proof (ry_repair_all_pointers f pos w6a) as (F7 & S7).
-  set (w7 := rp_repair_all_pointers w6a) in *.
-  pose proof (ro_scan_sid_rd (rp_c w7)) as R8.
-  assert (G8 : forall st7, ry_sigs f pos st7 (rp_c w7) -> ry_sigs f pos st7 (fst (rp_scan_fsr_sample_id (rp_c w7)))).
-  { intros st7 G. unfold rp_scan_fsr_sample_id. apply (ro_scan_sid_loop (ry_sig f pos st7)); [| apply ry_sig_default | exact G].
-    intros g z (X1 & X2 & X3). split; [exact X1 |]. split; [exact X2 | exact X3]. }
-  destruct (rp_scan_fsr_sample_id (rp_c w7)) as [c8 rc8]. cbn [fst] in R8, G8.
+  destruct (ro_tail_cases w6a) as (w7 & c8 & rc8 & w9 & rc9 & E7 & E8 & D).
+  pose proof (ry_repair_all_pointers f pos w6a) as (F7 & S7). rewrite <- E7 in F7, S7.
+  specialize (S7 st A6 S6).
+  pose proof (ro_scan_sid_rd (rp_c w7)) as R8. rewrite E8 in R8. cbn [fst] in R8.
+  assert (G8 : forall st7, ry_sigs f pos st7 (rp_c w7) -> ry_sigs f pos st7 c8).
+  { intros st7 G. pose proof (ro_scan_sid_loop (ry_sig f pos st7)) as L.
+    assert (X : Forall (ry_sig f pos st7) (rp_sigs (fst (rp_scan_fsr_sample_id (rp_c w7))))).
+    { unfold rp_scan_fsr_sample_id. apply L; [| apply ry_sig_default | exact G].
+      intros g z (X1 & X2 & X3). split; [exact X1 |]. split; [exact X2 | exact X3]. }
+    rewrite E8 in X. exact X. }
   set (w8 := rp_w_set_c w7 c8) in *.
-  assert (FWD8 : rp_flt (rp_w_io w8) = 0 -> exists st8, ry_acc f pos w8 st8 /\ ry_sigs f pos st8 c8).
+  assert (FWD8 : rp_flt (rp_w_io w8) = 0 -> exists st8, ry_acc f pos w8 st8 /\ ry_sigs f pos st8 (rp_c w8)).
   { intros X. assert (X7 : rp_flt (rp_w_io w7) = 0) by (apply (proj2 (proj2 R8)); exact X).
-    destruct (S7 st A6 S6 X7) as (st7 & A7 & G7 & _). exists st7. split; [apply ro_acc_set_c_rd; assumption | apply G8; exact G7]. }
-  destruct (negb (rc8 =? 0)).
-  { destruct (FWD8 (ro_exit_flt summ1 summN _ _ Hflt)) as (st8 & A8 & G8').
+    destruct (S7 X7) as (st7 & A7 & G7 & _). exists st7. split; [apply ro_acc_set_c_rd; assumption | apply G8; exact G7]. }
+  destruct D as [(_ & D) | (E9 & D)].
+  { rewrite D in *. destruct (FWD8 (ro_exit_flt summ1 summN _ _ Hflt)) as (st8 & A8 & G8').
     apply (ro_exit f summ1 summN pos w8 rc8 st8 (ro_acc_pre _ _ A8)); [right; apply A8 |].
     apply (ro_fsr_none_of (ry_sig f pos st8)); [intros g (_ & X & _); exact X | exact G8']. }
-  pose proof (rz_repair_fsr_all f pos summ1 summN rp_signal_ids w8) as R9. cbv zeta in R9. destruct R9 as (F9 & S9).
-  destruct (rp_repair_fsr_all summ1 summN rp_signal_ids w8) as [w9 rc9]. cbn [fst snd] in F9, S9.
+  pose proof (rz_repair_fsr_all f pos summ1 summN rp_signal_ids w8) as R9. cbv zeta in R9. rewrite E9 in R9. cbn [fst snd] in R9.
+  destruct R9 as (F9 & S9).
   assert (FWD9 : rp_flt (rp_w_io w9) = 0 ->
             (rc9 = JLS_ERROR_PARAMETER_INVALID \/ rc9 = JLS_ERROR_NOT_SUPPORTED) \/
             exists st9, ry_acc f pos w9 st9 /\ rz_fsigs f pos st9 (rp_c w9)).
   { intros X. destruct (FWD8 (F9 X)) as (st8 & A8 & G8').
     destruct (S9 st8 A8 (rz_fsigs_of_sigs f pos st8 _ G8') X) as [Y | (st9 & A9 & G9 & _)]; [left; exact Y | right].
     exists st9. split; assumption. }
-  destruct (negb (rc9 =? 0)) eqn:Erc9.
+  destruct D as [(N9 & D) | (Z9 & D)]; rewrite D in *.
   - destruct (FWD9 (ro_exit_flt summ1 summN _ _ Hflt)) as [[Y | Y] | (st9 & A9 & G9)].
     + exfalso. apply Hr1. exact Y.
     + exfalso. apply Hr2. exact Y.
     + apply (ro_exit f summ1 summN pos w9 rc9 st9 (ro_acc_pre _ _ A9)); [right; apply A9 |].
       apply (ro_fsr_none_of (rz_fsig f pos st9)); [intros g (_ & X); exact X | exact G9].
-  - apply negb_false_iff in Erc9. apply N.eqb_eq in Erc9.
-    destruct (FWD9 (ro_repair_end_flt _ Hflt)) as [[Y | Y] | (st9 & A9 & _)]; [rewrite Erc9 in Y; discriminate Y | rewrite Erc9 in Y; discriminate Y |].
+  - destruct (FWD9 (ro_repair_end_flt _ Hflt)) as [[Y | Y] | (st9 & A9 & _)]; [rewrite Z9 in Y; discriminate Y | rewrite Z9 in Y; discriminate Y |].
     apply (ro_repair_end f pos w9 st9 A9).
 Qed.
 
